@@ -19,6 +19,8 @@ structure XCfg.GoodBase (x : XCfg) : Prop where
   threadsSorts : x.threadsSorts = true
   threadsSkipsVanished : x.threadsSkipsVanished = true
   threadsChecksAlive : x.threadsChecksAlive = true
+  threadsSkipsEsrch : x.threadsSkipsEsrch = true
+  threadsHitStartsFalse : x.threadsHitStartsFalse = true
 
 /-- the configuration of the code as it is (since 9df9f82 only character devices enter the terminal map) -/
 structure XCfg.Good (x : XCfg) : Prop extends XCfg.GoodBase x where
@@ -270,6 +272,46 @@ theorem fileOf_none : fileOf none = .vanished := rfl
 theorem fileOf_some (r : StatRec) : fileOf (some r) = .content (renderStat r) := rfl
 
 def toOut (v : ThreadV) : ThreadOut := ⟨v.id, v.userTime, v.systemTime⟩
+
+/-- … with the SIGNAL by which a thread that ended shows: `esrch = false` FileNotFoundError when
+    its stat file is opened (ENOENT), `esrch = true` ProcessLookupError from `open`/`read` (ESRCH) -/
+def fileOfS (esrch : Bool) : Option StatRec → TaskFile
+  | none => if esrch then .esrch else .vanished
+  | some r => .content (renderStat r)
+
+theorem fileOfS_false (o : Option StatRec) : fileOfS false o = fileOf o := by cases o <;> rfl
+theorem fileOfS_none_false : fileOfS false none = .vanished := rfl
+theorem fileOfS_none_true : fileOfS true none = .esrch := rfl
+theorem fileOfS_some (e : Bool) (r : StatRec) : fileOfS e (some r) = .content (renderStat r) := rfl
+
+theorem scan_render_sig (c : Cfg) (hg : c.Good) (x : XCfg) (hx : x.threadsSkipsVanished = true)
+    (he : x.threadsSkipsEsrch = true) (tck : Nat) (sig : Nat → Bool)
+    (recs : Nat → Option StatRec) (hwf : ∀ t r, recs t = some r → r.WF ∧ r.pid = t) :
+    ∀ order : List Nat,
+      threadsScan c x tck (order.map fun t => (t, fileOfS (sig t) (recs t)))
+        = .ok ((Spec.threadsValue tck order recs).map toOut, order.any fun t => (recs t).isNone) := by
+  intro order
+  induction order with
+  | nil => rfl
+  | cons t ts ih =>
+    cases hr : recs t with
+    | none =>
+      cases hs : sig t with
+      | false =>
+        simp only [List.map_cons, hr, hs, fileOfS_none_false, threadsScan, hx, if_true, ih, Except.map,
+          Spec.threadsValue, List.filterMap_cons, Option.map_none, List.any_cons, Option.isNone_none,
+          Bool.true_or]
+      | true =>
+        simp only [List.map_cons, hr, hs, fileOfS_none_true, threadsScan, he, if_true, ih, Except.map,
+          Spec.threadsValue, List.filterMap_cons, Option.map_none, List.any_cons, Option.isNone_none,
+          Bool.true_or]
+    | some r =>
+      obtain ⟨hw, hp⟩ := hwf t r hr
+      have h1 := threadOne_render c hg tck r hw
+      rw [hp] at h1
+      simp only [List.map_cons, hr, fileOfS_some, threadsScan, h1, ih, bind, Except.bind, pure, Except.pure,
+        Spec.threadsValue, List.filterMap_cons, Option.map_some, List.any_cons, Option.isNone_some,
+        Bool.false_or, toOut, threadView, hp]
 
 theorem scan_render (c : Cfg) (hg : c.Good) (x : XCfg) (hx : x.threadsSkipsVanished = true) (tck : Nat)
     (recs : Nat → Option StatRec) (hwf : ∀ t r, recs t = some r → r.WF ∧ r.pid = t) :
